@@ -417,3 +417,23 @@ m('c15-expose-rejection-weaker-than-absorb', 'C15', SP, "        if exclude is n
 
 # the stale seed C11-1 (one-level clone of the raw inputs) together with the revert of the fix that made it harmless: the combination breaks C11 again and must fire
 pm('c11-shallow-clone-without-the-fix', 'C11', 'seeded/C11-1/patch_with_fix_reverted.diff', 'fire', None, 'stale seed C11-1 + revert of ec73fa0')
+
+# ------------------------------------------------------------------ a behaviour-preserving variant of round 10 TOGETHER WITH a break: the normalisation that makes the variant
+# readable (record splitting + flag-return sinking, folded anchor helper, seam read as its default, ExitStack nest, unrolled routing table) must not hide the break
+pm('r65-2-kill-verdict-forgets-pending-kill', 'C04', 'refactorings/broken/R65-2-kill-verdict-forgets-pending-kill.diff', 'fire', None,
+   'kill() split around a (settled, outcome) verdict helper, whose "a kill is already pending" arm now says "not settled": a second kill() goes ahead')
+pm('r66-8-folded-dispatch-stop-becomes-killed', 'C13', 'refactorings/broken/R66-8-folded-dispatch-stop-becomes-killed.diff', 'fire', None,
+   '_action_command folded into Running.execute, and the Stop branch builds the KILLED state')
+pm('r67-3-deepcopy-seam-shallow', 'C11', 'refactorings/broken/R67-3-deepcopy-seam-shallow.diff', 'fire', None,
+   'the new class-level seam _deepcopy defaults to copy.copy: encode_input_args / decode_input_args hand out shallow copies')
+pm('r67-3-deepcopy-seam-shallow-c12', 'C12', 'refactorings/broken/R67-3-deepcopy-seam-shallow.diff', 'fire', None,
+   'the new class-level seam _deepcopy defaults to copy.copy (outputs side)')
+pm('r69-6-exit-stack-without-capture', 'C20', 'refactorings/broken/R69-6-exit-stack-without-capture.diff', 'fire', None,
+   'CancellableAction.run on an ExitStack that no longer enters capture_exceptions(self): a failing action escapes instead of becoming the outcome')
+pm('r68-1-route-continue-to-launch', 'C17', 'refactorings/broken/R68-1-route-continue-to-launch.diff', 'fire', None,
+   'launcher dispatch through a routing table whose continue entry points at _launch')
+pm('r65-2-kill-verdict-ignores-terminated', 'C01', 'refactorings/broken/R65-2-kill-verdict-ignores-terminated.diff', 'fire', None,
+   'the verdict helper of kill() no longer settles the request for a FINISHED / EXCEPTED process: kill() transitions out of a terminal state (the guarded facts kept across '
+   'the join must not pretend the guard is still there)')
+pm('r66-5-folded-factory-kill-without-cookie', 'C04', 'refactorings/broken/R66-5-folded-factory-kill-without-cookie.diff', 'fire', None,
+   '_create_interrupt_action folded into _set_interrupt_action_from_exception, the kill action built without the interruption as its cookie')
